@@ -105,6 +105,11 @@ func (sfc *StructFieldsCopy) createFieldSnippet(f *types.Var) snippet.Snippet {
 			// always gen
 			fc.HasDeepCopyInto = true
 			fc.HasDeepCopy = true
+
+			if _, ok := x.Underlying().(*types.Map); ok {
+				// the methods generated for a map type take and return the map itself
+				fc.PtrResultOrParam = false
+			}
 		}
 		if fc.PtrResultOrParam && fc.HasDeepCopyInto {
 			return snippet.T(`
